@@ -43,8 +43,8 @@ ASSUMPTIONS = [
   "probable-only); nested styles carry no references; no reference loops; at most one <initial> per property; a set carries one style attribute",
   "computed values: animation > specified > inherited (inheritable property) > <initial> > TTML2/IMSC initial value (color: white); body inherits "
   "from the region it is flowed into; textDecoration resolves per component; tts:textAlign left/right are read as start/end (the canonical "
-  "model has no absolute alignments); a partial textDecoration directly on a region is out of scope (its resolution against the initial "
-  "value is ISD style computation, C03); tts:textAlign=\"justify\" is generated in one hand-made document only",
+  "model has no absolute alignments); textDecoration is not compared for the text of a region that itself specifies a partial textDecoration (its "
+  "resolution against the initial value is ISD style computation, C03); tts:textAlign=\"justify\" is generated in one hand-made document only",
   "named colours in lower case only; rgb()/rgba() without white space; an rgb component > 255 may be rejected or clamped to 255 (both accepted)",
   "[associate region]: text is shown in region R iff every `region` attribute on it and its ancestors names R (at least one does), or the document "
   "has no region at all (default region); references to unknown regions are not generated",
